@@ -361,6 +361,33 @@ func runC18(c *Ctx) {
 					}
 				}
 			}
+			commentDash, commentBlock := false, false
+			for _, call := range callsIn(gfn, true) {
+				if callName(call) == "strings.Contains" || callName(call) == "strings.Index" {
+					if sv, ok := constString(call.Common().Args[1]); ok {
+						if sv == "--" {
+							commentDash = true
+						}
+						if sv == "/*" {
+							commentBlock = true
+						}
+					}
+				}
+			}
+			c.Check(commentDash && commentBlock, "C18.SINGLE", gfn.Name()+"|refuses-comments", gfn.Pos(), "statements with -- or /* are refused (comments are not stripped before extraction)", gfn.Name()+" does not refuse statements with comments: a time comparison inside a comment (`WHERE v > 0 -- AND time >= x`) is read as a predicate and partitions are pruned by it")
+			c.Check(usesRegex("WHERE", "FindAllStringIndex", "FindAllString", "FindAllStringSubmatch", "FindAllStringSubmatchIndex"), "C18.SINGLE", gfn.Name()+"|counts-where", gfn.Pos(), "WHERE keywords are counted", gfn.Name()+" does not count WHERE keywords: the WHERE of `count(*) FILTER (WHERE time >= x)` is taken for the statement's row filter")
+			filterQ := false
+			for _, call := range callsIn(gfn, true) {
+				if !strings.HasPrefix(callName(call), "(*regexp.Regexp).") {
+					continue
+				}
+				if g := c18GlobalOf(call.Common().Args[0]); g != nil {
+					if r, ok := byName[g.Name()]; ok && r.re.MatchString("count(*) FILTER (WHERE x)") && r.re.MatchString("a qualify b") && !r.re.MatchString("SELECT a FROM t WHERE x") {
+						filterQ = true
+					}
+				}
+			}
+			c.Check(filterQ, "C18.SINGLE", gfn.Name()+"|refuses-filter-qualify", gfn.Pos(), "FILTER and QUALIFY are refused", gfn.Name()+" does not refuse FILTER (WHERE …) / QUALIFY: their comparisons restrict an aggregate or the windowed output, not the rows read")
 			c.Check(comma, "C18.SINGLE", gfn.Name()+"|refuses-comma-join", gfn.Pos(), "a comma in the FROM clause is refused", gfn.Name()+" does not look for a comma in the FROM clause: `FROM cpu c, mem m WHERE m.time >= x` prunes cpu by mem's predicate")
 		}
 	}
@@ -616,6 +643,145 @@ singleDone:
 		}
 		c.Need("C18.KEY", "OptimizeTablePath|key-from-own-arguments", "the cache lookup")
 		c.Need("C18.KEY", "OptimizeTablePath|range-from-same-sql", "the extraction")
+
+		// every cache access in OptimizeTablePath: keyed by cacheKey(path, sql), or — if keyed by the range — by every TimeRange field GeneratePartitionPaths reads
+		if gen != nil {
+			read := map[string]bool{}
+			for _, in := range instrs(gen, false) {
+				if fa, ok := in.(*ssa.FieldAddr); ok {
+					if sn, fld, _, ok := fieldOf(fa); ok && sn == "TimeRange" {
+						read[fld] = true
+					}
+				}
+			}
+			nAcc := 0
+			for _, call := range callsIn(opt, false) {
+				nm := callName(call)
+				if nm != "(*"+c18Pkg+".partitionCache).get" && nm != "(*"+c18Pkg+".partitionCache).set" {
+					continue
+				}
+				nAcc++
+				key := call.Common().Args[1]
+				if derivesWide(key, isResultOf("(*"+c18Pkg+".partitionCache).cacheKey"), 6) {
+					c.Triv("C18.KEY", fmt.Sprintf("OptimizeTablePath|cache-access#%d", nAcc), call.Pos(), "keyed by cacheKey(path, sql)")
+					continue
+				}
+				fs := fieldSources(key, 14)
+				var missing []string
+				for f := range read {
+					if !fs["TimeRange."+f] {
+						missing = append(missing, f)
+					}
+				}
+				sort.Strings(missing)
+				c.Check(len(missing) == 0, "C18.KEY", fmt.Sprintf("OptimizeTablePath|cache-access#%d-range-key", nAcc), call.Pos(), "range-derived key covers every TimeRange field the path generator reads", "a partition-cache entry is keyed by the time range without TimeRange."+strings.Join(missing, ", TimeRange.")+", which GeneratePartitionPaths reads: two statements that differ only there (`time < b` and `time <= b`) share one path list, and the second loses the partition starting at b")
+			}
+		}
+
+		// ---- REMOTE: a failed listing is not evidence of absence
+		c.Rule("C18.REMOTE", "PATH: in the loop of filterExistingRemotePaths that builds the list of kept paths, the error branch of a storage listing call does not reach the next iteration without keeping the path (a failed listing is not evidence of absence)")
+		if fr := c.MustFunc("C18.REMOTE", "(*"+c18Pkg+".PartitionPruner).filterExistingRemotePaths"); fr != nil {
+			// appends that feed the returned slice
+			keep := map[*ssa.BasicBlock]bool{}
+			var header *ssa.BasicBlock
+			for _, in := range instrs(fr, false) {
+				r, ok := in.(*ssa.Return)
+				if !ok {
+					continue
+				}
+				seen := map[ssa.Value]bool{}
+				var rec func(v ssa.Value)
+				rec = func(v ssa.Value) {
+					if v == nil || seen[v] {
+						return
+					}
+					seen[v] = true
+					switch x := v.(type) {
+					case *ssa.Phi:
+						if blockInCycle(x.Block()) {
+							header = x.Block()
+						}
+						for _, e := range x.Edges {
+							rec(e)
+						}
+					case *ssa.Call:
+						if b, ok := x.Call.Value.(*ssa.Builtin); ok && b.Name() == "append" {
+							keep[x.Block()] = true
+							rec(x.Call.Args[0])
+						}
+					}
+				}
+				rec(unspill(r, r.Results[0]))
+			}
+			n := 0
+			for _, in := range instrs(fr, false) {
+				ifi, ok := in.(*ssa.If)
+				if !ok || header == nil || !header.Dominates(ifi.Block()) || !blockInCycle(ifi.Block()) {
+					continue
+				}
+				bo, ok := ifi.Cond.(*ssa.BinOp)
+				if !ok || bo.Op != token.NEQ || !isNilConst(bo.Y) || !isErrorType(bo.X.Type()) {
+					continue
+				}
+				ex, ok := bo.X.(*ssa.Extract)
+				if !ok {
+					continue
+				}
+				lc, ok := ex.Tuple.(*ssa.Call)
+				if !ok || !lc.Call.IsInvoke() {
+					continue
+				}
+				n++
+				// DFS from the error branch
+				skips := false
+				vis := map[*ssa.BasicBlock]bool{}
+				// path search with the boolean phis decided by the edge taken (a flag set on the error branch and tested right after)
+				var dfs func(from, b *ssa.BasicBlock)
+				dfs = func(from, b *ssa.BasicBlock) {
+					if keep[b] {
+						return
+					}
+					if b == header {
+						skips = true
+						return
+					}
+					if vis[b] {
+						return
+					}
+					vis[b] = true
+					succs := b.Succs
+					if bi, ok := lastIf(b); ok {
+						cond, neg := bi.Cond, false
+						if u, ok := cond.(*ssa.UnOp); ok && u.Op == token.NOT {
+							cond, neg = u.X, true
+						}
+						if ph, ok := cond.(*ssa.Phi); ok && ph.Block() == b {
+							for k, pr := range b.Preds {
+								if pr == from {
+									if kc, ok := ph.Edges[k].(*ssa.Const); ok && kc.Value != nil {
+										v := kc.Value.String() == "true"
+										if neg {
+											v = !v
+										}
+										if v {
+											succs = b.Succs[:1]
+										} else {
+											succs = b.Succs[1:2]
+										}
+									}
+								}
+							}
+						}
+					}
+					for _, sc := range succs {
+						dfs(b, sc)
+					}
+				}
+				dfs(ifi.Block(), ifi.Block().Succs[0])
+				c.Check(!skips, "C18.REMOTE", fmt.Sprintf("filterExistingRemotePaths|%s-error-keeps-path", lc.Call.Method.Name()), ifi.Pos(), "on a listing error the path is still kept", "when "+lc.Call.Method.Name()+" fails, the path is dropped from the pruned list: a transient storage error silently leaves that partition's file out of the query (the directory listing above keeps everything on error)")
+			}
+			c.Check(n >= 1, "C18.REMOTE", "filterExistingRemotePaths|listing-error-branches", fr.Pos(), fmt.Sprintf("%d listing error branch(es) inside the keep loop inspected", n), "no listing error branch found inside the keep loop")
+		}
 
 		// ---- FALLBACK
 		var filt ssa.Value
